@@ -137,6 +137,15 @@ def gen_cases(rng, tier):
     for _ in range(ncalls):
         cases.append(random_script(r4, maxlen).replace("10 |", "210 |", 1))
     dist["module_call_view_histories"] = ncalls
+    # the same three kinds of run over a payload aligned to 64 bytes (header field after the others = 1): the Arc keeps its counts 64 bytes
+    # before such a payload, and an erased handle must still reach them through the stored functions
+    r5 = rng.fork("aligned")
+    nal = {"quick": 300, "search": 400}.get(tier, 3000)
+    for k in range(nal):
+        body = random_script(r5, maxlen).split("|", 1)[1].strip()
+        w = k % 4
+        cases.append(("10 0 1 | " if w == 0 else "10 1 1 | " if w == 1 else "210 1 | " if w == 2 else "110 %d %d 1 | " % (r5.choice([2, 4]), r5.choice([5, 20]))) + body)
+    dist["over_aligned_payload_histories"] = nal
     # the same operations issued concurrently: one history on several threads over shared allocations ('110 <threads> <rounds> | history')
     nthr = {"quick": 250, "search": 400}.get(tier, 3000)
     r2 = rng.fork("threads")
